@@ -1,6 +1,6 @@
 //! C18 — connection setup honours the URL and fails cleanly on bad input.
 
-use super::{fence, scratch_dir, serve_stream, tcp_listener, unix_listener, with_deadline, Contacts, FenceTarget, Mode};
+use super::{scratch_dir, serve_stream, with_deadline, Contacts, Fence, Mode, Registrar};
 use crate::common::{catch, cov, Reporter, Tier};
 use crate::vcore::ber;
 use ldap3::{LdapConn, LdapConnAsync, LdapConnSettings, LdapError, StdStream};
@@ -71,7 +71,7 @@ struct Env {
     open_port: u16,
     closed_port: u16,
     silent_port: u16,
-    fence: Vec<FenceTarget>,
+    fence: Option<Fence>,
 }
 
 /// outcome of one establishment attempt: Ok(bind worked?) / Err(kind) / panic text
@@ -153,7 +153,7 @@ fn attempt(c: &Case, env: &Env) -> (Result<Result<bool, &'static str>, String>, 
 fn judge(rep: &Reporter, c: &Case, env: &Env) {
     let n0 = env.contacts.lock().unwrap().len();
     let c2 = c.clone();
-    let env2 = Env { contacts: env.contacts.clone(), open_port: env.open_port, closed_port: env.closed_port, silent_port: env.silent_port, fence: vec![] };
+    let env2 = Env { contacts: env.contacts.clone(), open_port: env.open_port, closed_port: env.closed_port, silent_port: env.silent_port, fence: None };
     let replay = json!({"engine":"c18","case":format!("{:?}", c)});
     let out = with_deadline(Duration::from_secs(6), move || attempt(&c2, &env2));
     let (r, secs) = match out {
@@ -164,10 +164,10 @@ fn judge(rep: &Reporter, c: &Case, env: &Env) {
         }
     };
     // every connection made so far is registered once the fence has passed
-    fence(&env.fence, &env.contacts);
+    env.fence.as_ref().expect("fence").wait();
     // the server end of a pre-opened stream registers itself when the case is set up; only
     // listeners the library connected to by itself count as "contacted" for the error cases
-    let all_new: Vec<String> = env.contacts.lock().unwrap()[n0..].iter().filter(|x| x.listener != "fence").map(|x| x.listener.clone()).collect();
+    let all_new: Vec<String> = env.contacts.lock().unwrap()[n0..].iter().map(|x| x.listener.clone()).collect();
     let expects_prestream = matches!(&c.want, Want::OkAt(l) | Want::FailAfterContact(l) if l.starts_with("prestream"));
     let new: Vec<String> = if expects_prestream { all_new.clone() } else { all_new.iter().filter(|l| !l.starts_with("prestream")).cloned().collect() };
     let got = match r {
@@ -240,13 +240,13 @@ fn judge(rep: &Reporter, c: &Case, env: &Env) {
             }
         }
         Want::PeerHangsUp(l) => {
-            if got.is_ok() || got == Err("Timeout") || !new.iter().all(|x| x == l) || new.is_empty() || secs > 2.5 {
+            if got.is_ok() || got == Err("Timeout") || !new.iter().all(|x| x == l) || new.is_empty() || secs > 5.0 {
                 bad(format!("expected {} to be contacted and the establishment to fail by itself (not by the timeout)", l));
             }
         }
         Want::Timeout => {
             let t = c.timeout_ms.unwrap() as f64 / 1000.0;
-            if got != Err("Timeout") || secs < t * 0.9 || secs > t + 1.5 {
+            if got != Err("Timeout") || secs < t * 0.9 || secs > t + 4.0 {
                 bad(format!("expected Timeout after about {:.1}s", t));
             }
         }
@@ -299,14 +299,15 @@ fn uses_default_port(c: &Case) -> bool {
 fn run_shard(rep: &Reporter, tier: Tier, shard: usize, nshards: usize) -> ShardOut {
     let _ports = if shard == 0 { Some(super::lock_default_ports()) } else { None };
     let contacts: Contacts = Arc::new(Mutex::new(vec![]));
+    let mut reg = Registrar::new(contacts.clone());
     // listeners
-    let open_port = tcp_listener("127.0.0.1:0", "tcp:open", Mode::Responder, contacts.clone()).expect("ephemeral listener");
-    let v6_open = tcp_listener(&format!("[::1]:{}", open_port), "tcp:open", Mode::Responder, contacts.clone()).is_some();
-    let silent_port = tcp_listener("127.0.0.1:0", "tcp:silent", Mode::Silent, contacts.clone()).expect("silent listener");
+    let open_port = reg.tcp("127.0.0.1:0", "tcp:open", Mode::Responder).expect("ephemeral listener");
+    let v6_open = reg.tcp(&format!("[::1]:{}", open_port), "tcp:open", Mode::Responder).is_some();
+    let silent_port = reg.tcp("127.0.0.1:0", "tcp:silent", Mode::Silent).expect("silent listener");
     // a port nothing listens on: below the ephemeral range (which the environments running side
     // by side draw their listeners from), verified by a refused connection
-    let closer_port = tcp_listener("127.0.0.1:0", "tcp:closer", Mode::CloseAtOnce, contacts.clone()).expect("closer listener");
-    let rtc_port = tcp_listener("127.0.0.1:0", "tcp:read-then-close", Mode::ReadThenClose, contacts.clone()).expect("read-then-close listener");
+    let closer_port = reg.tcp("127.0.0.1:0", "tcp:closer", Mode::CloseAtOnce).expect("closer listener");
+    let rtc_port = reg.tcp("127.0.0.1:0", "tcp:read-then-close", Mode::ReadThenClose).expect("read-then-close listener");
     let closed_port = (0..2000u16)
         .map(|k| 20011 + (shard as u16) * 2003 + k)
         .find(|p| {
@@ -315,37 +316,20 @@ fn run_shard(rep: &Reporter, tier: Tier, shard: usize, nshards: usize) -> ShardO
         })
         .expect("verif-machinery: no closed port found");
     let own = shard == 0;
-    let p389 = own && tcp_listener("127.0.0.1:389", "tcp:389", Mode::Responder, contacts.clone()).is_some();
-    let p389v6 = own && tcp_listener("[::1]:389", "tcp:389", Mode::Responder, contacts.clone()).is_some();
-    let p636 = own && tcp_listener("127.0.0.1:636", "tcp:636", Mode::Responder, contacts.clone()).is_some();
-    let p636v6 = own && tcp_listener("[::1]:636", "tcp:636", Mode::Responder, contacts.clone()).is_some();
+    let p389 = own && reg.tcp("127.0.0.1:389", "tcp:389", Mode::Responder).is_some();
+    let p389v6 = own && reg.tcp("[::1]:389", "tcp:389", Mode::Responder).is_some();
+    let p636 = own && reg.tcp("127.0.0.1:636", "tcp:636", Mode::Responder).is_some();
+    let p636v6 = own && reg.tcp("[::1]:636", "tcp:636", Mode::Responder).is_some();
     let dir = format!("{}-{}", scratch_dir(), shard);
     let _ = std::fs::create_dir_all(&dir);
     let sock_plain = format!("{}/ldapi.sock", dir);
     let sock_space = format!("{}/ld api.sock", dir);
     let sock_colon = format!("{}/slapd:389.sock", dir);
-    let u1 = unix_listener(&sock_plain, "unix:plain", Mode::Responder, contacts.clone());
-    let u2 = unix_listener(&sock_space, "unix:space", Mode::Responder, contacts.clone());
-    let u3 = unix_listener(&sock_colon, "unix:colon", Mode::Responder, contacts.clone());
+    let u1 = reg.unix(&sock_plain, "unix:plain", Mode::Responder);
+    let u2 = reg.unix(&sock_space, "unix:space", Mode::Responder);
+    let u3 = reg.unix(&sock_colon, "unix:colon", Mode::Responder);
     assert!(u1 && u2 && u3, "verif-machinery: cannot bind Unix listeners under {}", dir);
-    let mut fence_targets = vec![
-        FenceTarget::Tcp(format!("127.0.0.1:{}", open_port)),
-        FenceTarget::Tcp(format!("127.0.0.1:{}", silent_port)),
-        FenceTarget::Tcp(format!("127.0.0.1:{}", closer_port)),
-        FenceTarget::Tcp(format!("127.0.0.1:{}", rtc_port)),
-    ];
-    if v6_open {
-        fence_targets.push(FenceTarget::Tcp(format!("[::1]:{}", open_port)));
-    }
-    for (up, a) in [(p389, "127.0.0.1:389"), (p389v6, "[::1]:389"), (p636, "127.0.0.1:636"), (p636v6, "[::1]:636")] {
-        if up {
-            fence_targets.push(FenceTarget::Tcp(a.to_string()));
-        }
-    }
-    for p in [&sock_plain, &sock_space, &sock_colon] {
-        fence_targets.push(FenceTarget::Unix(p.clone()));
-    }
-    let env = Env { contacts: contacts.clone(), open_port, closed_port, silent_port, fence: fence_targets };
+    let env = Env { contacts: contacts.clone(), open_port, closed_port, silent_port, fence: Some(reg.start()) };
 
     let mut cases: Vec<Case> = vec![];
     let pres = [Pre::None, Pre::Tcp, Pre::Unix, Pre::Invalid];
